@@ -2,7 +2,7 @@
 ``Screen(...)`` construction sites, h5 writer/reader tables, guard helpers)."""
 import ast
 
-from engine.astutil import (U, calls, kwargs, single_defs, inline, strip_copy, walk_own, call_name, attr_tail,
+from engine.astutil import (U, calls, kwargs, single_defs, inline, strip_copy, walk_own, call_name, attr_tail, enclosing_map,
                             same, stmt_text)
 from engine.repo import AnalysisError
 
@@ -64,6 +64,41 @@ def call_keywords(R, f, call, params):
             kw[k.arg] = k.value
             continue
         v = k.value
+        if isinstance(v, ast.Call) and call_name(v) == "dict" and not v.args and all(k2.arg is not None for k2 in v.keywords):
+            for k2 in v.keywords:
+                kw[k2.arg] = k2.value
+            continue
+        if isinstance(v, ast.Name):
+            unrolled = unroll_constant_dict(f, v.id)
+            if unrolled is not None:
+                kw.update(unrolled)
+                continue
+            env = single_defs(f.node)
+            d = env.get(v.id)
+            if isinstance(d, ast.Call) and call_name(d) == "dict" and not d.args and all(k2.arg is not None for k2 in d.keywords):
+                for k2 in d.keywords:
+                    kw[k2.arg] = k2.value
+                continue
+            if isinstance(d, ast.Dict):
+                v = d
+            elif d is None:
+                # built by `name = {}` / `name = dict()` followed by name["key"] = value stores (each key once)
+                stores = {}
+                init = False
+                for n in walk_own(f.node):
+                    if isinstance(n, ast.Assign) and isinstance(n.targets[0], ast.Name) and n.targets[0].id == v.id:
+                        init = True
+                        if isinstance(n.value, ast.Dict):
+                            for kk, vv in zip(n.value.keys, n.value.values):
+                                if isinstance(kk, ast.Constant):
+                                    stores[kk.value] = vv
+                    if isinstance(n, ast.Assign) and isinstance(n.targets[0], ast.Subscript) and isinstance(n.targets[0].value, ast.Name) \
+                            and n.targets[0].value.id == v.id and isinstance(n.targets[0].slice, ast.Constant):
+                        stores[n.targets[0].slice.value] = n.value
+                if init and stores:
+                    kw.update(stores)
+                    continue
+                return None
         if isinstance(v, ast.Dict) and all(isinstance(x, ast.Constant) and isinstance(x.value, str) for x in v.keys):
             for kk, vv in zip(v.keys, v.values):
                 kw[kk.value] = vv
@@ -85,6 +120,80 @@ def call_keywords(R, f, call, params):
                 continue
         return None
     return kw
+
+
+def screen_constructions(ctx, f):
+    """[(keyword table, label)] of the screens function f builds: direct Screen(...) sites and calls of straight-line
+    repository helpers whose return value is a Screen(...) (parameters substituted), in source order"""
+    from engine.astutil import inline_calls, resolve_helper
+    out = []
+    direct = [s for s in screen_sites(ctx) if s.f.qname == f.qname]
+    for s in direct:
+        if s.opaque:
+            raise AnalysisError(f"{s.site}: Screen(**kwargs) cannot be expanded")
+        out.append((s.call.lineno, s.kw, s.site))
+    params = screen_init_params(ctx)
+    for c in calls(f.node):
+        h, skip = resolve_helper(ctx.R, f, c)
+        if h is None or h.node is f.node:
+            continue
+        e = inline_calls(c, ctx.R, f.mod, scope=f.node) if skip == 0 else None
+        if isinstance(e, ast.Call) and isinstance(e.func, ast.Name) and ctx.R.chase(h.mod, e.func.id) == SCREEN_Q:
+            kw = call_keywords(ctx.R, h, e, params)
+            if kw is None:
+                raise AnalysisError(f"{f.site()}: Screen(**kwargs) inside helper {h.site()} cannot be expanded")
+            out.append((c.lineno, kw, f"{f.site()}::Screen(...) via {h.site()}#{len(out)}"))
+    out.sort(key=lambda x: x[0])
+    return [(kw, label) for _, kw, label in out]
+
+
+def _subst_name(e, name, const):
+    import copy
+
+    class S(ast.NodeTransformer):
+        def visit_Name(self, n):
+            if n.id == name and isinstance(n.ctx, ast.Load):
+                return ast.Constant(value=const)
+            return n
+    return S().visit(copy.deepcopy(e))
+
+
+def unroll_constant_dict(f, name):
+    """{key: value expr} for a local dict built from constant keys only: a dict literal / dict(...) / a dict comprehension
+    over a constant tuple, plus `name[k] = v` stores, including stores inside `for k in (<constants>)` loops (unrolled)"""
+    out = {}
+    seen_init = False
+    par = enclosing_map(f.node)
+    for n in sorted(walk_own(f.node), key=lambda x: (getattr(x, "lineno", 0), getattr(x, "col_offset", 0))):
+        if isinstance(n, ast.Assign) and len(n.targets) == 1 and isinstance(n.targets[0], ast.Name) and n.targets[0].id == name:
+            v = n.value
+            if seen_init:
+                return None
+            seen_init = True
+            if isinstance(v, ast.Dict) and all(isinstance(k, ast.Constant) for k in v.keys):
+                for k, x in zip(v.keys, v.values):
+                    out[k.value] = x
+            elif isinstance(v, ast.Call) and call_name(v) == "dict" and not v.args:
+                for k in v.keywords:
+                    out[k.arg] = k.value
+            elif isinstance(v, ast.DictComp) and len(v.generators) == 1 and not v.generators[0].ifs and isinstance(v.generators[0].target, ast.Name) \
+                    and isinstance(v.generators[0].iter, (ast.Tuple, ast.List)) and all(isinstance(x, ast.Constant) for x in v.generators[0].iter.elts) \
+                    and isinstance(v.key, ast.Name) and v.key.id == v.generators[0].target.id:
+                for x in v.generators[0].iter.elts:
+                    out[x.value] = _subst_name(v.value, v.key.id, x.value)
+            else:
+                return None
+        elif isinstance(n, ast.Assign) and isinstance(n.targets[0], ast.Subscript) and isinstance(n.targets[0].value, ast.Name) and n.targets[0].value.id == name:
+            k = n.targets[0].slice
+            if isinstance(k, ast.Constant):
+                out[k.value] = n.value
+            elif isinstance(k, ast.Name) and isinstance(par.get(n), ast.For) and isinstance(par[n].target, ast.Name) and par[n].target.id == k.id \
+                    and isinstance(par[n].iter, (ast.Tuple, ast.List)) and all(isinstance(x, ast.Constant) for x in par[n].iter.elts):
+                for x in par[n].iter.elts:
+                    out[x.value] = _subst_name(n.value, k.id, x.value)
+            else:
+                return None
+    return out if seen_init and out else None
 
 
 def returned_screen_kw(ctx, f):
@@ -179,6 +288,30 @@ def h5_writes(fn_node):
             if isinstance(t.value, ast.Attribute) and t.value.attr == "attrs" and isinstance(t.slice, ast.Constant):
                 out[("attr", t.slice.value)] = n.value
     return out
+
+
+def h5_writes_full(ctx, f):
+    """h5_writes plus writers that loop over a generator helper yielding (dataset name, value) pairs"""
+    from engine.astutil import resolve_helper, inline_calls
+    W = h5_writes(f.node)
+    for lp in [n for n in walk_own(f.node) if isinstance(n, ast.For) and isinstance(n.iter, ast.Call) and isinstance(n.target, ast.Tuple) and len(n.target.elts) == 2]:
+        cds = [c for c in calls(lp, tail="create_dataset")]
+        if len(cds) != 1:
+            continue
+        nm, val = U(lp.target.elts[0]), U(lp.target.elts[1])
+        c = cds[0]
+        data = kwargs(c).get("data", c.args[1] if len(c.args) > 1 else None)
+        if not (c.args and U(c.args[0]) == nm and data is not None and U(data) == val):
+            continue
+        h, skip = resolve_helper(ctx.R, f, lp.iter)
+        if h is None:
+            continue
+        henv = single_defs(h.node)
+        for y in [n for n in walk_own(h.node) if isinstance(n, ast.Yield) and isinstance(n.value, ast.Tuple) and len(n.value.elts) == 2]:
+            k, v = y.value.elts
+            if isinstance(k, ast.Constant) and isinstance(k.value, str):
+                W[("ds", k.value)] = inline_calls(inline(v, henv), ctx.R, h.mod, class_q=h.class_q)
+    return W
 
 
 def h5_read_key(e):
@@ -394,12 +527,14 @@ def loader_wiring(ctx, f, ctor_names):
             call = c
     if call is None:
         raise AnalysisError(f"{f.site()}: constructor call {ctor_names} not found in loader")
+    from engine.astutil import inline_calls
     out = {}
-    for k in call.keywords:
-        if k.arg is None:
-            raise AnalysisError(f"{f.site()}: **kwargs in loader constructor call")
-        out[k.arg] = inline(k.value, env)
-    pos = [inline(a, env) for a in call.args]
+    expanded = call_keywords(ctx.R, f, ast.Call(func=call.func, args=[], keywords=call.keywords), [])
+    if expanded is None:
+        raise AnalysisError(f"{f.site()}: **kwargs in the loader's constructor call cannot be expanded")
+    for k, v in expanded.items():
+        out[k] = inline_calls(inline(v, env), ctx.R, f.mod, scope=f.node)
+    pos = [inline_calls(inline(a, env), ctx.R, f.mod, scope=f.node) for a in call.args]
     obj = None
     for n in walk_own(f.node):
         if isinstance(n, ast.Assign) and n.value is call and isinstance(n.targets[0], ast.Name):
@@ -421,7 +556,9 @@ def serde_agreement(ctx, rule, save_q, load_q, table, ctor_names, positional=Non
     Obligations per entry: restored by the loader; the key read is written; the written value is
     the like-named state; codecs pair up; no lossy transformer on either side; whole-dataset read."""
     sf, lf = ctx.fn(save_q), ctx.fn(load_q)
-    W = h5_writes(sf.node)
+    W = h5_writes_full(ctx, sf)
+    if not [k for k in W if k[0] == "ds"]:
+        raise AnalysisError(f"{sf.site()}: no dataset with a constant name is written directly (table-driven writer?) - the writer's key table cannot be extracted")
     wiring, pos, call = loader_wiring(ctx, lf, ctor_names)
     if positional:
         for i, name in enumerate(positional):
@@ -471,6 +608,8 @@ def serde_agreement(ctx, rule, save_q, load_q, table, ctor_names, positional=Non
         wexpr = inline(W[(kind, key)], senv)
         inner, wwrap = write_wrapper(wexpr)
         inner_s = strip_value_preserving(inner)
+        if isinstance(inner_s, ast.Call) and (attr_tail(inner_s) or "") in {fn.name for fn in ctx.R.funcs.values()}:
+            raise AnalysisError(f"{site}: the value written under `{key}` goes through the helper `{U(inner_s.func)}` which is not straight-line; encoding undecided")
         problems = []
         if U(inner_s).replace(" ", "") != want.replace(" ", ""):
             problems.append(f"key `{key}` stores `{U(inner_s)[:60]}` but is loaded into `{name}` (expected `{want}`)")
